@@ -54,6 +54,27 @@ def cliExitTable : List (String × String × String) := [
   ("Execute", "Execute() != nil", "1")
 ]
 
+/-- package-level variables of the hand-written packages: (package, name, kind) -/
+def packageStateTable : List (String × String × String) := [
+  (".", "ParseErrorsToString", "alias"),
+  ("internal/analysis", "AllowedTypes", "slice"),
+  ("internal/analysis", "Builtins", "map"),
+  ("internal/cmd", "checkCmd", "pointer"),
+  ("internal/cmd", "lspCmd", "pointer"),
+  ("internal/cmd", "overdraftFeatureFlag", "scalar"),
+  ("internal/cmd", "rootCmd", "pointer"),
+  ("internal/cmd", "runBalancesOpt", "scalar"),
+  ("internal/cmd", "runMetaOpt", "scalar"),
+  ("internal/cmd", "runOutFormatOpt", "scalar"),
+  ("internal/cmd", "runRawOpt", "scalar"),
+  ("internal/cmd", "runStdinFlag", "scalar"),
+  ("internal/cmd", "runVariablesOpt", "scalar"),
+  ("internal/interpreter", "accountNameRegex", "regexp"),
+  ("internal/interpreter", "fractionRegex", "regexp"),
+  ("internal/interpreter", "percentRegex", "regexp"),
+  ("internal/numscript", "Version", "scalar")
+]
+
 def builtinDocs (name : String) : String :=
   match builtinDocsTable.find? (fun p => p.1 == name) with
   | some p => p.2
